@@ -12,6 +12,7 @@ import (
 	"os"
 	"path/filepath"
 	"runtime"
+	"runtime/pprof"
 	"sort"
 	"strconv"
 	"strings"
@@ -119,6 +120,14 @@ func main() {
 	}
 	if os.Getenv("SYMGO_SLOWLOG") != "" {
 		interp.SlowLog = os.Stderr
+		if ms, err := strconv.Atoi(os.Getenv("SYMGO_SLOWLOG")); err == nil && ms > 1 {
+			interp.SlowThreshold = time.Duration(ms) * time.Millisecond
+		}
+	}
+	if pf := os.Getenv("SYMGO_CPUPROFILE"); pf != "" {
+		f, _ := os.Create(pf)
+		pprof.StartCPUProfile(f)
+		defer pprof.StopCPUProfile()
 	}
 	switch os.Args[1] {
 	case "run":
